@@ -159,8 +159,8 @@ func c15Transfer(c *h.Ctx, id string, r *rand.Rand) {
 	if r.Intn(6) == 0 {
 		size = 1 + r.Intn(60000)
 	}
-	if c.Thorough() && r.Intn(25) == 0 {
-		size = 200000
+	if r.Intn(8) == 0 { // objects much longer than the fetch window (12..45 segments)
+		size = 8000*(12+r.Intn(34)) + []int{-1, 0, 1, 4000}[r.Intn(4)]
 	}
 	nVer := 1 + r.Intn(4)
 	versions := r.Perm(nVer)
